@@ -32,3 +32,9 @@
 #define GHOST_FRAME GH_
 #define CBM(i,j) in_Bval[(i) + (j)*LDB]
 #define CXM(i,j) in_Xval[(i) + (j)*LDX]
+/* cell frames of the dense blocks (nrhs <= 2): only entries (i,j) with i < nrow, j < nrhs may ever be written */
+#define CELL_AT(c,n_,ld,nr) (((nr) >= 1 && 0 <= (c) && (c) < (n_)) || ((nr) >= 2 && (ld) <= (c) && (c) < (ld) + (n_)))
+#define CCELL_B(c) CELL_AT(c, A->nrow, LDB, NRHS)
+#define CCELL_X(c) CELL_AT(c, A->nrow, LDX, NRHS)
+#define LCELL_B(c) CELL_AT(c, A->nrow, ldb, nrhs)
+#define LCELL_X(c) CELL_AT(c, A->nrow, ldx, nrhs)
